@@ -263,6 +263,11 @@ func (u *Unit) heapCur(st *State, h string) string {
 		name := fmt.Sprintf("%s@hv%d", h, st.hvgen)
 		u.c.declareFun(name, "() "+u.c.heapNames[h])
 		st.heaps[h] = name
+		if f := u.finalFacts(h, h+"@0", name, "alloc@0"); f != "" {
+			// `final` fields survive every havoc: relate them to the entry version for cells that existed at entry
+			u.c.declareFun(h+"@0", "() "+u.c.heapNames[h])
+			u.c.declareRaw("final_"+name, "(assert "+f+")")
+		}
 		if !st.unk && u.entry != nil && st != u.entry {
 			// no callee with unknown effects ran on this path, so the generation comes from loop-head havocs (possibly
 			// merged): the loops' implicit frame invariant holds for this heap as well (a heap
